@@ -176,13 +176,17 @@ pub fn all() -> Vec<Prop> {
         Prop {
             id: "C12",
             level: "exploration",
-            rule: "pool half (E3): 2-6 tasks open and close 'connections' (insert / hold / remove) on the real PoolWatch with a random allowed set and quota; invariant after every step (one entry per key, outsiders <= quota), admission decisions compared with a reference set model, quota-leak check at the end; non-trivial = at least one refusal; distinct = distinct event-log fingerprint. The handshake half needs the simulated TCP seam (not built in this revision).",
-            batches: |t| prim_batches("pool", 3000, 200_000, t),
-            expected_probes: || vec!["duplicate_connection_refused", "quota_refusal"],
+            rule: "handshake half (E4): a real node (victim: accept loop, preface, noise, handshake::inbound / outbound, pools) over simulated TCP, optionally a second honest node, and an adversary holding a Byzantine committee key and outsider keys which follows one of 14 strategies per run: genuine handshake (control), claimed identity with a foreign signature, replay of an honest node's handshake from another session, relay (man in the middle, in both directions, through an address hijack), another chain, outsider on the validator endpoint, the same identity on several sessions, truncated handshakes, answering the victim's dial as somebody else, gossip-endpoint quota and forged static peer; oracle = ground truth of which actor operates the far end of every connection and which secret keys it holds, checked whenever an identity appears in a pool. Pool half (E3): 2-6 tasks open and close 'connections' (insert / hold / remove) on the real PoolWatch with a random allowed set and quota; invariant after every step (one entry per key, outsiders <= quota), admission decisions compared with a reference set model, quota-leak check at the end; non-trivial = at least one refusal; distinct = distinct event-log fingerprint. The handshake half needs the simulated TCP seam (not built in this revision).",
+            batches: |t| {
+                let mut b = prim_batches("pool", 3000, 200_000, t);
+                b.push(Batch { engine: "node", mode: "admission", runs: if t == "thorough" { 20_000 } else { 500 } });
+                b
+            },
+            expected_probes: || vec!["duplicate_connection_refused", "quota_refusal", "identity_admitted"],
             components: || json!({
-                "real": ["network::pool::PoolWatch + watch::Watch (via hook H4)", "concurrency"],
-                "stub": ["connections (scripted tasks)", "scheduler choice"],
-                "absent": ["handshakes, noise, TCP accept loop (handshake half of C12 not claimed yet)"]
+                "real": ["network::Network + Runner (accept loop, preface, noise, consensus and gossip handshakes, pools, connection maintenance, rpc services)", "engine::EngineManager", "concurrency incl. net::tcp through the simulated-TCP seam (hook H2)", "roles, crypto"],
+                "stub": ["TCP (SimTcp: listener registry, SimPipe connections, hijack)", "execution layer (SimEngine)", "address gossip (announcements are handed to the address book through the RPC handler's entry point)", "adversary (raw preface / noise / handshake speaker)", "clock, scheduler choice"],
+                "absent": ["bft component (no consensus traffic in this scenario)", "DNS (ip:port hosts)", "debug page"]
             }),
             assumptions: prim_assumptions,
         },
@@ -410,6 +414,7 @@ pub fn run_case(engine: &str, mode: &str, seed: u64, keep_log: bool, focus: &str
         }
         "prim" => crate::prim::run_case(mode, seed, keep_log).0,
         "pipe" => crate::pipes::run_case(mode, seed, keep_log).0,
+        "node" => crate::node::run_case(mode, seed, keep_log).0,
         _ => panic!("unknown engine {engine}"),
     }
 }
@@ -424,6 +429,7 @@ pub fn run_case_logged(engine: &str, mode: &str, seed: u64) -> (CaseResult, Vec<
         }
         "prim" => crate::prim::run_case(mode, seed, true),
         "pipe" => crate::pipes::run_case(mode, seed, true),
+        "node" => crate::node::run_case(mode, seed, true),
         _ => panic!("unknown engine {engine}"),
     }
 }
@@ -445,6 +451,10 @@ pub fn write_replay(engine: &str, mode: &str, seed: u64, prop: &str, r: &CaseRes
             let (_, log) = crate::pipes::run_case(mode, seed, true);
             json!({"trace": log})
         }
+        "node" => {
+            let (_, log) = crate::node::run_case(mode, seed, true);
+            json!({"trace": log})
+        }
         _ => return None,
     };
     let dir = verif_dir().join("replays");
@@ -463,6 +473,7 @@ pub fn replay_case(engine: &str, doc: &Value) -> (CaseResult, Vec<String>) {
     match engine {
         "prim" => crate::prim::run_case(doc["mode"].as_str().unwrap_or(""), doc["seed"].as_u64().unwrap_or(0), true),
         "pipe" => crate::pipes::run_case(doc["mode"].as_str().unwrap_or(""), doc["seed"].as_u64().unwrap_or(0), true),
+        "node" => crate::node::run_case(doc["mode"].as_str().unwrap_or(""), doc["seed"].as_u64().unwrap_or(0), true),
         "bft" => {
             let cfg: bft::Cfg = serde_json::from_value(doc["case"]["cfg"].clone()).expect("cfg");
             let plan: Vec<bft::Action> = serde_json::from_value(doc["case"]["plan"].clone()).expect("plan");
